@@ -174,9 +174,11 @@ fn gen_fair(src: &mut Src<'_>) -> SchedCase {
 pub fn run(ctx: &Ctx) -> (Report, PropertyMeta) {
     let mut report = Report::default();
     let t = ctx.tier;
-    report.merge(exhaustive_schedules(ctx, 2, t.pick(8, 10), true, true));
-    report.merge(exhaustive_schedules(ctx, 3, t.pick(7, 8), true, true));
-    report.merge(exhaustive_schedules(ctx, 2, t.pick(7, 9), false, true));
+    // (the alphabet has 16 / 22 tokens since Migrate and Replace were added; depths chosen so
+    // that quick stays within seconds)
+    report.merge(exhaustive_schedules(ctx, 2, t.pick(7, 9), true, true));
+    report.merge(exhaustive_schedules(ctx, 3, t.pick(6, 7), true, true));
+    report.merge(exhaustive_schedules(ctx, 2, t.pick(7, 8), false, true));
     let n = t.pick(20_000, 400_000);
     report.merge(run_random(ctx, "schedule06", n, 40..=200, |s| gen_sched(s, false), |c| sched_outcome(c, true)));
     report.merge(run_random(ctx, "schedule06", n, 40..=200, gen_fair, |c| sched_outcome(c, true)));
